@@ -25,8 +25,8 @@ theorem tx_not_while_transmitting (c : Ctx) (now : Int) (phyTx : Bool) (hon : c.
   simp only [hon]
   rcases hbusy with h | ⟨l, hl, hle⟩
   · subst h
-    cases h : c.s.st <;> simp_all [Res.bind]
-  · cases h : c.s.st <;> simp_all [Res.bind, tr]
+    cases h : c.s.st <;> simp_all [Res.bind, pollStart, ongoing]
+  · cases h : c.s.st <;> simp_all [Res.bind, tr, pollStart, ongoing]
 
 /-- The token is passed (or retransmitted) by `do_pass_token` only after the synchronisation pause. -/
 theorem pass_token_needs_idle (c : Ctx) (now : Int) (g : Bool) (a : Attempt) (hst : c.s.st = .passToken g a)
